@@ -124,6 +124,20 @@ def primary_cases():
         (lab, b) = mk(dict(primary='administrative record [7, %r] in transit' % (content,)), flags=B.FLAG_ADMIN, report_to='dtn:none', src='dtn://other/')
         b['blocks'][-1]['data'] = C.dumps([7, content])
         yield (lab, b)
+    # flagged as an administrative record but carrying no record (empty payload / not CBOR / a bare integer):
+    # still a payload the forwarder has no business rewriting
+    for (pname, pdata) in (('empty', b''), ('not-cbor', b'\xff\xfe'), ('bare-integer', b'\x05'), ('array-of-one', b'\x81\x01')):
+        (lab, b) = mk(dict(primary='administrative flag with payload %s' % pname), flags=B.FLAG_ADMIN, report_to='dtn:none', src='dtn://other/')
+        b['blocks'][-1]['data'] = pdata
+        yield (lab, b)
+    # hop-by-hop blocks whose content this node cannot interpret (an endpoint-ID scheme it does not know, data that is
+    # not what the block type defines): there is still exactly one previous-node block afterwards, naming this node
+    for (pname, pdata) in (('unknown-scheme', C.dumps([7, 'abc'])), ('not-an-eid', C.dumps(5)), ('not-cbor', b'\xff')):
+        (lab, b) = mk(dict(primary='previous-node block with %s' % pname, prev=1))
+        for blk in b['blocks']:
+            if blk['type'] == B.T_PREV_NODE:
+                blk['data'] = pdata
+        yield (lab, b)
     for bflags in (0x80, 0x81, 0x28, 0x1000001):
         (lab, b) = mk(dict(primary='unknown block with block flags %#x' % bflags, unk=True))
         b['blocks'].insert(0, dict(type=199, num=5, flags=bflags, crc_type=1, data=b'\x01\x02'))
